@@ -102,6 +102,16 @@ Fixpoint to_frags (aw : bool) (pk : list string) (ps : list sclass) : option (li
 
 Definition has_wire (s : site) : bool := existsb (fun p => match p with SWire => true | _ => false end) (s_parts s).
 
+(* numeric value of a level (Python logging) and "a record of this level is written when the logger's
+   effective level is [threshold]" *)
+Definition level_value (l : level) : Z :=
+  match l with LDebug => 10 | LInfo => 20 | LWarning => 30 | LError => 40 | LException => 40 | LCritical => 50 end.
+Definition written_at (threshold : Z) (l : level) : bool := (threshold <=? level_value l).
+
+(* [observable] is "written at threshold 20 (INFO)" for logging calls *)
+Definition observable_at (threshold : Z) (k : kind) : bool :=
+  match k with KLog l => written_at threshold l | KDead => false | _ => true end.
+
 Definition is_foreign (f : frag) : bool := match f with FArg AExcForeign => true | _ => false end.
 
 (* Does this site produce text that can reach a log at level >= INFO or a client? *)
